@@ -166,9 +166,15 @@ example : ∀ f ∈ hist, f.length ≤ 4096 := by decide +kernel
     state under id 1 and one holding RPC parser state under id 5 -/
 example : summary (run cfgE envE [] hist) = [(PROTO_HTTP, 1), (PROTO_RPC_TCP, 2)] := by decide +kernel
 
-/-- after the first segment the stored HTTP state is in the middle of "HTTP/" (state `lit 2`) -/
+/-- the match row of "GET" in the compiled HTTP verb matcher (computed from the generated table; its
+    number depends on the order in which the patterns were registered) -/
+private def httpGetRow : Nat := ((httpTbl.searchNext baseState [71, 69, 84]).toOption.map (·.2.1)).getD 0
+
+/-- after the first segment the stored HTTP state is in the middle of "HTTP/" (state `lit 2`), the stored
+    matcher state is the match row of "GET" -/
 example : (run cfgE envE [] [fA1]).map (fun e => e.2.protoState) =
-    [some (.http { state := .lit 2, smackState := 57, smackId := 0 })] := by decide +kernel
+    [some (.http { state := .lit 2, smackState := httpGetRow, smackId := 0 })] ∧
+    httpTbl.matchLimit ≤ httpGetRow := by decide +kernel
 
 /-- `Inv` holds of this concrete non-empty table (by `inv_run`), and `no_panic` applies to it -/
 example : Inv (run cfgE envE [] hist) ∧ (run cfgE envE [] hist).length = 2 :=
@@ -199,12 +205,18 @@ example : TcbInv {} ∧ HttpInv {} ∧ C16.RpcInv {} := ⟨tcbInv_init, httpInv_
 -- release profile
 example : summary (run cfgR envE [] hist) = [(PROTO_HTTP, 1), (PROTO_RPC_TCP, 2)] := by decide +kernel
 
+/-- the match row of "GET /" in the compiled protocol matcher (computed from the generated table) -/
+private def protoGetRow : Nat :=
+  ((protoTbl.searchNext baseState [71, 69, 84, 32, 47]).toOption.map (·.2.1)).getD 0
+
 /-- the matcher-state part of the invariant is not just "a non-match row": after "GET" + " /" in two
-    segments the block stores match row 187 of the protocol matcher (`matchLimit` = 170) and an HTTP
-    parser in FAIL state; a third segment is still processed without panic -/
+    segments the block stores the match row of "GET /" of the protocol matcher (a row ≥ `matchLimit`) and
+    an HTTP parser in FAIL state (its matcher fell back to the unanchored state); a third segment is
+    still processed without panic -/
 example : (run cfgE envE [] histC).map (fun e => (e.2.smackState, e.2.protoId, e.2.protoState)) =
-    [(187, PROTO_HTTP, some (.http { state := .fail, smackState := 1, smackId := noMatch }))] ∧
-    protoTbl.matchLimit = 170 := by decide +kernel
+    [(protoGetRow, PROTO_HTTP,
+      some (.http { state := .fail, smackState := unanchoredState, smackId := noMatch }))] ∧
+    protoTbl.matchLimit ≤ protoGetRow := by decide +kernel
 
 end NonVacuity
 
